@@ -103,8 +103,10 @@ Proof.
   - (* Decimal *) rewrite Hdf, !decimal_separators_default by assumption. apply hooks_agree_refl.
   - apply hooks_agree_refl.
   - apply hooks_agree_refl.
-  - (* DateTime *) destruct (range_of_text (fd_length d)); try exact I. cbn.
-    intros cell [Hc|[Hc|[Hc|Hc]]]; [congruence| | |]; apply datetime_hook_kind; auto.
+  - (* DateTime *) destruct (range_of_text (fd_length d)); try exact I.
+    destruct (has_non_ascii_t (fd_rule d)); [exact I|]. cbv zeta.
+    destruct (parse_format _ _) as [fmt|]; [destruct (has_dup (dirs_of fmt)); [exact I|]|]; cbn;
+      intros cell [Hc|[Hc|[Hc|Hc]]]; try congruence; apply datetime_hook_kind; auto.
   - apply hooks_agree_refl.
   - apply hooks_agree_refl.
   - apply hooks_agree_refl.
